@@ -68,7 +68,8 @@ fn exp_large_case(base: u64) -> impl Strategy<Value = Case> {
         }
         let dd = x.digits(base) as i64;
         x.exp = top - dd + 1;
-        Case { p, f: 0, x, y: fl_from(&BigInt::one(), 0), n: 0 }
+        let f = if !x.sig.neg && top as f64 * lb >= 14.0 && sa % 3 == 0 { 1 } else { 0 };
+        Case { p, f, x, y: fl_from(&BigInt::one(), 0), n: 0 }
     })
 }
 
@@ -421,10 +422,12 @@ fn enclosure(c: &Case, base: u64, w: u64) -> Option<Ball> {
 /// the enclosure of exp(r) and the result scaled by B^-s (an exact exponent shift in base B), so
 /// that every ulp-relative judgement carries over unchanged.
 fn scaled_exp_enclosure(c: &Case, base: u64, w: u64, got: &Sci) -> Option<(Ball, Sci)> {
-    if c.f != 0 {
+    let xs = c.x.sci(base);
+    // exp_m1 only for positive arguments: exp_m1(x)·B^-s = exp(r) − B^-s with 0 < B^-s < 2^-11000
+    // (x >= 2^13), far below any working precision of the ladder; added to the radius below
+    if !(c.f == 0 || (c.f == 1 && xs.signum() > 0 && xs.floor_log() >= 0)) {
         return None;
     }
-    let xs = c.x.sci(base);
     let xbits = ((xs.floor_log() + 1) as f64 * (base as f64).log2()).ceil() as u64;
     if xbits > 70 {
         return None;
@@ -436,7 +439,13 @@ fn scaled_exp_enclosure(c: &Case, base: u64, w: u64, got: &Sci) -> Option<(Ball,
     let s_big: BigInt = if q.e >= 0 { &q.m << (q.e as usize) } else { &q.m >> ((-q.e) as usize) };
     let s = num_traits::ToPrimitive::to_i64(&s_big)?;
     let r = x.sub(&lnb.mul_int(&s_big, ww), ww);
-    let enc = ball::exp(&r, w);
+    let mut enc = ball::exp(&r, w);
+    if c.f == 1 {
+        if xbits < 14 || w > 10_000 {
+            return None;
+        }
+        enc = enc.sub(&Ball { m: BigInt::zero(), r: BigUint::one(), e: -11_000 }, w + 8);
+    }
     let mut scaled = got.clone();
     scaled.e = scaled.e.checked_sub(s)?;
     Some((enc, scaled))
